@@ -32,7 +32,7 @@ WHAT TO PRODUCE
 ENVIRONMENT
 - No network. Every go command needs: `export GOFLAGS=-mod=mod GOPROXY=off` (leave GOTOOLCHAIN unset). Go 1.24 is selected automatically inside the worktree.
 - Run single tests with e.g. `go test -count=1 -vet=off -run 'TestName' .` ; the root package's full suite: `go test -count=1 -vet=off .` (3-4 min). Sub-packages live under internal/ and pkg/.
-- Do not commit. Do not create other worktrees. Keep everything inside {wt}.
+- Do not commit. Do not create other worktrees. NEVER use `git stash` (the stash is shared by all worktrees of the repository and other people work in theirs): to run something without your change use `git apply -R SEED/patch.diff` and re-apply it afterwards. Keep everything inside {wt}.
 - This is variant #{n}: if you can think of several candidate changes, prefer a subtle one in the less obvious part of the mechanism.
 
 Finish with a short report: the change (one paragraph), what it needs to manifest, and the three command results.""")
